@@ -18,5 +18,7 @@ CONSTANTS
   CachePutFails = FALSE
   CrashInCreate = FALSE
   IssuerEntries = {}
+  MaxTampers = 0
+  VerifyEdge = TRUE
   Stops = FALSE
 CHECK_DEADLOCK FALSE
